@@ -9,7 +9,7 @@ PROP = "C13"
 LEVEL = "model_checking"
 ANCHOR_PREFIXES = ["connector::", "element::SvgElement::transmute", "element::SvgElement::is_connector", "position::Length::calc_offset", "position::parse_el_loc", "position::BoundingBox::locspec"]
 BOUNDS = ("two boxes (rect/circle) with symbolic position (integers in [-64,64]) and size (integers in [0,32]); endpoint specs {#el, #el@loc (9), #el@edge:offset (symbolic either sign / 25% / 50% / 150%), "
-          "literal point (symbolic)} on either end; kinds {line straight, edge-type h, edge-type v, corner polyline with corner-offset absent / 25% / absolute symbolic >= 0}; "
+          "literal point (symbolic)} on either end; kinds {line straight, edge-type h, edge-type v, corner polyline with corner-offset absent / 25% / 125% / absolute symbolic of either sign}; "
           "paths: those reached from 12 seeded arrangements (9 sectors, overlapping, touching, identical) plus solver-driven negation for templates without a closest-location search; "
           "every reached path is decided for all values (nonlinear real arithmetic over the hull of the domain)")
 ASSUMPTIONS = ["candidate locations: edge mid-points t r b l, plus the four corners for straight lines; l r only for edge-type h, t b only for edge-type v (property text + docs connectors.md)",
@@ -57,21 +57,25 @@ def templates(tier, seed):
     for et in ("h", "v", "horizontal", "vertical"):
         for s, e in (("plain", "plain"),):
             tds.append(dict(fam="hv", et=et, s=s, e=e))
-    CS = ["plain", "@t", "@r", "@b", "@l", "@t:o", "@r:25%"]
+    CS = ["plain", "@t", "@r", "@b", "@l", "@t:o", "@r:o", "@b:o", "@l:o", "@t:25%", "@r:25%", "@b:150%", "@l:50%"]
     for s in CS:
         for e in CS:
-            for off in ("none", "25%", "abs"):
+            for off in ("none", "25%", "abs", "absneg", "125%"):
+                if (":" in s or ":" in e) and off in ("125%", "absneg") and s != "plain" and e != "plain" and (s[1] != e[1]):
+                    continue
                 tds.append(dict(fam="corner", s=s, e=e, off=off))
     for s, e in (("@tl", "@b"), ("plain", "@c"), ("pt", "plain"), ("@r", "pt")):
         tds.append(dict(fam="corner", s=s, e=e, off="none"))
     if tier == "quick":
-        tds = sample_quota(tds, lambda t: (t["fam"],), {"straight": 70, "hv": 4, "corner": 50}, seed)
+        tds = sample_quota(tds, lambda t: (t["fam"],), {"straight": 120, "hv": 4, "corner": 260}, seed)
     return tds
 
 
 def twins(tier, seed):
-    return [dict(fam="straight", s="plain", e="plain", ka="rect", kb="rect"), dict(fam="hv", et="h", s="plain", e="plain"), dict(fam="corner", s="@r", e="@l", off="25%"),
-            dict(fam="corner", s="plain", e="plain", off="none")]
+    # (wrong-oracle twins with two automatic ends make the solver search a 64-pair nonlinear space for a model: minutes; the
+    # sensitivity of the minimality obligation is exercised with one automatic end instead)
+    return [dict(fam="straight", s="@r", e="plain", ka="rect", kb="rect"), dict(fam="hv", et="h", s="plain", e="plain"), dict(fam="corner", s="@r", e="@l", off="25%"),
+            dict(fam="corner", s="@t", e="plain", off="none")]
 
 
 def endspec(spec, ref, vars_):
@@ -132,9 +136,9 @@ def build(td, wrong=False):
     if fam == "hv":
         extra = f' edge-type="{td["et"]}"'
     if fam == "corner" and td["off"] != "none":
-        if td["off"] == "abs":
+        if td["off"] in ("abs", "absneg"):
             k = len(vars_)
-            vars_.append((4, 0, 16, 0))
+            vars_.append((4, 0, 16, 0) if td["off"] == "abs" else (-4, -16, 0, 0))
             extra = f' corner-offset="[[{k}]]"'
             offinfo = ("abs", f"v{k}")
         else:
@@ -240,9 +244,12 @@ def build(td, wrong=False):
                 elif offinfo[0] == "pct":
                     jog = plus(s0, mul(num(offinfo[1]), minus(e0, s0)))
                 else:
-                    jog = ite(lt(e0, s0), minus(s0, offinfo[1]), plus(s0, offinfo[1]))
+                    ov = offinfo[1]
+                    fwd = ite(lt(e0, s0), minus(s0, ov), plus(s0, ov))          # ov >= 0: measured from the start, towards the end
+                    back = ite(lt(e0, s0), minus(e0, ov), plus(e0, ov))         # ov < 0: measured back from the end
+                    jog = ite(ge(ov, "0.0"), fwd, back)
                 obls.append(Obl("jog-at-corner-offset", or_(ne(pts[1][ax], jog), ne(pts[2][ax], jog))))
-            elif sd == ed and (offinfo is None or offinfo[0] == "abs"):
+            elif sd == ed and (offinfo is None or (offinfo[0] == "abs" and td["off"] == "abs")):
                 ax = 0 if sd in ("l", "r") else 1
                 ov = "3.0" if offinfo is None else offinfo[1]
                 outer = rmin(p0[ax], pk[ax]) if sd in ("l", "t") else rmax(p0[ax], pk[ax])
